@@ -17,6 +17,7 @@ from typing import TYPE_CHECKING, Any
 # asimap imports
 #
 from .constants import flag_to_seq
+from .exceptions import No
 from .generator import get_msg_size, msg_as_string
 from .utils import parsedate
 
@@ -314,7 +315,13 @@ class IMAPSearch:
         #       a decision on whether or not the message is removed from the
         #       recent sequence or not.
         #
-        keyword = flag_to_seq(self.args["keyword"])
+        # NOTE: A keyword that can not be stored on this server is not an
+        #       error here: no message has it.
+        #
+        try:
+            keyword = flag_to_seq(self.args["keyword"])
+        except No:
+            return False
         result = keyword in self.ctx.sequences
         return result
 
